@@ -26,6 +26,9 @@ func extra(args []string) bool {
 	case "serve":
 		serve()
 		return true
+	case "fn-ready-enum":
+		fnReadyEnum()
+		return true
 	case "fn-render":
 		fnRender(argU(args, 1, 1), int(argU(args, 2, 1500)))
 		return true
@@ -119,6 +122,19 @@ func fnStorage(seed uint64, n int) {
 	for i := 0; i < n; i++ {
 		evs := genEvents(r)
 		var file []byte
+		if i%25 == 7 || i%25 == 19 {
+			// a log spanning several 64 KiB blocks: the tail repair scans backwards block by block
+			filler := ergo.VerifNewEvent("body", tsAt(1), ergo.BodyUpdateEvent{ID: "ZZZZZZ", Body: strings.Repeat("filler ", 90), TS: ergo.VerifFormatTime(tsAt(1))})
+			fb, _ := json.Marshal(filler)
+			target := 70000
+			if i%25 == 19 {
+				target = 140000
+			}
+			for len(file) < target {
+				file = append(file, fb...)
+				file = append(file, '\n')
+			}
+		}
 		for _, e := range evs {
 			b, _ := json.Marshal(e)
 			switch c := r.n(100); {
@@ -449,5 +465,75 @@ func fnRender(seed uint64, n int) {
 			"ell": []int{int('…'), runewidth.RuneWidth('…')}, "abbr_lens": blens, "abbr_n": abN, "events": ergo.VerifCanonEvents(evs)}
 		lineCps := cps(line)
 		emit(J{"req": req, "go": J{"line": lineCps, "line_width": ergo.VerifVisibleLen(line), "abbr_valid": utf8.ValidString(abOut), "abbr_bytes": len(abOut), "views": views}})
+	}
+}
+
+// fnReadyEnum: exhaustive small scope for ready/blocked/claim order — two epics (optionally E2 depends on E1), two children of E1
+// in every state, a todo child of E2 (optionally claimed, optionally depending on an orphan task in every state, optionally pruned).
+func fnReadyEnum() {
+	states := []string{"todo", "doing", "done", "blocked", "canceled", "error"}
+	mk := func(typ string, k int, payload any) ergo.Event { return ergo.VerifNewEvent(typ, tsAt(k), payload) }
+	newItem := func(typ, id, epic string, k int) ergo.Event {
+		return mk(typ, k, ergo.NewTaskEvent{ID: id, UUID: "u-" + id, EpicID: epic, State: "todo", Title: id, CreatedAt: ergo.VerifFormatTime(tsAt(k))})
+	}
+	setState := func(evs []ergo.Event, id, st string, k int) []ergo.Event {
+		if st == "todo" {
+			return evs
+		}
+		if st == "doing" || st == "error" {
+			evs = append(evs, mk("claim", k, ergo.ClaimEvent{ID: id, AgentID: "ag", TS: ergo.VerifFormatTime(tsAt(k))}))
+		}
+		return append(evs, mk("state", k, ergo.StateEvent{ID: id, NewState: st, TS: ergo.VerifFormatTime(tsAt(k))}))
+	}
+	tag := 0
+	for _, s1 := range states {
+		for _, s2 := range append([]string{"-"}, states...) {
+			for _, s4 := range append([]string{"-"}, states...) {
+				for _, epicEdge := range []bool{false, true} {
+					for _, dep34 := range []bool{false, true} {
+						for _, variant := range []string{"plain", "t3claimed", "t4pruned"} {
+							if (s4 == "-" && (dep34 || variant == "t4pruned")) || (variant == "t4pruned" && !dep34) {
+								continue
+							}
+							evs := []ergo.Event{newItem("new_epic", "EEEEE1", "", 1), newItem("new_epic", "EEEEE2", "", 2),
+								newItem("new_task", "TTTTT1", "EEEEE1", 3)}
+							if s2 != "-" {
+								evs = append(evs, newItem("new_task", "TTTTT2", "EEEEE1", 4))
+							}
+							evs = append(evs, newItem("new_task", "TTTTT3", "EEEEE2", 5), newItem("new_task", "TTTTT0", "EEEEE2", 5))
+							if s4 != "-" {
+								evs = append(evs, newItem("new_task", "TTTTT4", "", 6))
+							}
+							evs = setState(evs, "TTTTT1", s1, 10)
+							if s2 != "-" {
+								evs = setState(evs, "TTTTT2", s2, 11)
+							}
+							if s4 != "-" {
+								evs = setState(evs, "TTTTT4", s4, 12)
+							}
+							if epicEdge {
+								evs = append(evs, mk("link", 13, ergo.LinkEvent{FromID: "EEEEE2", ToID: "EEEEE1", Type: "depends"}))
+							}
+							if dep34 {
+								evs = append(evs, mk("link", 14, ergo.LinkEvent{FromID: "TTTTT3", ToID: "TTTTT4", Type: "depends"}))
+							}
+							if variant == "t3claimed" {
+								evs = append(evs, mk("claim", 15, ergo.ClaimEvent{ID: "TTTTT3", AgentID: "zz", TS: ergo.VerifFormatTime(tsAt(15))}))
+							}
+							if variant == "t4pruned" {
+								evs = append(evs, mk("tombstone", 16, ergo.TombstoneEvent{ID: "TTTTT4", AgentID: "p", TS: ergo.VerifFormatTime(tsAt(16))}))
+							}
+							pairs := [][]string{{"TTTTT4", "TTTTT3"}, {"EEEEE1", "EEEEE2"}}
+							epic := []string{"", "EEEEE2", "EEEEE1"}[tag%3]
+							req := J{"op": "replay", "tag": tag, "events": ergo.VerifCanonEvents(evs), "pairs": pairs, "epic": epic, "compact": false}
+							ans := replayAnswer(evs, pairs, epic)
+							delete(ans, "compact")
+							emit(J{"req": req, "go": ans})
+							tag++
+						}
+					}
+				}
+			}
+		}
 	}
 }
